@@ -22,7 +22,7 @@ const c04Tuples = 5 * 4 * 4 * 4 // ifGenerationMatch {unset,=cur,!=cur,0,junk} x
 // C04: preconditions gate mutations exactly. Complete enumeration of the condition-tuple space in both tiers, random
 // histories on top; oracle = truth table of the statement + "a failed request changed nothing" whole-bucket diff.
 func runC04(run *common.Run) {
-	run.Rule = fmt.Sprintf("sub-space 'enum' (enumerated COMPLETELY in both tiers, exhaustive=true refers to it): %d condition tuples (ifGenerationMatch in {unset,=cur,!=cur,0,junk} x ifGenerationNotMatch, ifMetagenerationMatch, ifMetagenerationNotMatch in {unset,=cur,!=cur,junk}) x object state {absent, fresh (metageneration 1), patched (metageneration 3), deleted-and-recreated (!=cur = the deleted generation)} x operation {media, multipart, resumable (conditions at initiation), patch, delete, compose destination, patch whose body is a full object resource as an EARLIER metadata GET returned it (stale generation / metageneration / md5Hash / size for the patched and recreated states) with one user field changed - for a quarter of the tuples the resource of the neighbour object nb1, for another quarter renamed to an object that does not exist, so that name / id / links in the body differ from the URL -, patch whose body has valid members (user metadata, acl / owner / retention / customerEncryption) followed by a member of the wrong JSON type} x store {mem,file} = %d cases; sub-space 'src' (complete): compose with 1-3 sources, per-source ifGenerationMatch in {unset,=cur,!=cur} at every position x destination {absent,fresh} x store. The target is uploaded with acl entries, owner, retention and customerEncryption in its metadata and every plain PATCH of the grid that must fail also names those nested fields with other values. Each case = fresh bucket with two neighbour objects, set-up of the target state, baseline dump, the one request, dump; expected status from the truth table, after any non-2xx the dump must equal the baseline. 'folder' (complete): the same %d tuples x {delete, patch} x addressed name {'t', 't/'} x store in a bucket that holds 't/x' and 't/y/z' but never held an object 't' or 't/': the addressed object is absent, so only {} and {ifGenerationMatch=0} pass the conditions and then there is nothing to delete / patch (never a 2xx), an unparsable value is 400, and the dump afterwards - the objects below the prefix in particular - must equal the baseline. 'late' (complete): resumable sessions of at least three data chunks initiated with a condition {ifGenerationMatch=cur, ifGenerationNotMatch=cur, ifMetagenerationMatch=cur, ifMetagenerationNotMatch=cur, ifGenerationMatch=0, ifGenerationMatch=cur+ifMetagenerationMatch=cur on a live target; ifGenerationMatch=0, =another object's generation, ifMetagenerationMatch=1, ifMetagenerationNotMatch=2 on an absent one} x OTHER requests on the target {none, overwrite by another upload, patch, delete, delete+re-create, patch+overwrite; create, create+patch, create+delete} x the point of the session at which they are executed {after the initiation before the first chunk, after the first data chunk was acknowledged (308), after the second, after every byte was acknowledged and before the bodiless finalising request} x store, each of the other requests followed by a dump (a half-sent session shows nowhere); the upload is performed iff its conditions hold against the object as it is when the upload is COMMITTED (both directions are counted: true when opened / false at commit and false when opened / true at commit), else 412/304 and nothing changed; 'hist': random histories whose conditions refer to generations learned earlier, 45 percent of the resumable uploads sent in >= 2 chunk requests with 1-2 other requests on the same object (upload by another protocol, patch, delete, re-creation, a quarter of them conditioned themselves) between two of the session's chunks, including conditioned and unconditioned deletes / patches of never-stored names that are '/'-prefixes of stored names (with and without trailing slash) and read-only steps after which the dump must be unchanged. Non-trivial = the request carried at least one condition (enum/src/folder) resp. the history saw both a passing and a failing conditioned request; distinct by case index.", c04Tuples, c04Tuples*len(c04States)*len(c04Ops)*2, c04Tuples)
+	run.Rule = fmt.Sprintf("sub-space 'enum' (enumerated COMPLETELY in both tiers, exhaustive=true refers to it): %d condition tuples (ifGenerationMatch in {unset,=cur,!=cur,0,junk} x ifGenerationNotMatch, ifMetagenerationMatch, ifMetagenerationNotMatch in {unset,=cur,!=cur,junk}) x object state {absent, fresh (metageneration 1), patched (metageneration 3), deleted-and-recreated (!=cur = the deleted generation)} x operation {media, multipart, resumable (conditions at initiation), patch, delete, compose destination, patch whose body is a full object resource as an EARLIER metadata GET returned it (stale generation / metageneration / md5Hash / size for the patched and recreated states) with one user field changed - for a quarter of the tuples the resource of the neighbour object nb1, for another quarter renamed to an object that does not exist, so that name / id / links in the body differ from the URL -, patch whose body has valid members (user metadata, acl / owner / retention / customerEncryption) followed by a member of the wrong JSON type} x store {mem,file} = %d cases; sub-space 'src' (complete): compose with 1-3 sources, per-source ifGenerationMatch in {unset,=cur,!=cur} at every position x destination {absent,fresh} x store. The target is uploaded with acl entries, owner, retention and customerEncryption in its metadata and every plain PATCH of the grid that must fail also names those nested fields with other values. Each case = fresh bucket with two neighbour objects, set-up of the target state, baseline dump, the one request, dump; expected status from the truth table, after any non-2xx the dump must equal the baseline. 'folder' (complete): the same %d tuples x {delete, patch} x addressed name {'t', 't/'} x store in a bucket that holds 't/x' and 't/y/z' but never held an object 't' or 't/': the addressed object is absent, so only {} and {ifGenerationMatch=0} pass the conditions and then there is nothing to delete / patch (never a 2xx), an unparsable value is 400, and the dump afterwards - the objects below the prefix in particular - must equal the baseline. 'late' (complete): resumable sessions of at least three data chunks initiated with a condition {ifGenerationMatch=cur, ifGenerationNotMatch=cur, ifMetagenerationMatch=cur, ifMetagenerationNotMatch=cur, ifGenerationMatch=0, ifGenerationMatch=cur+ifMetagenerationMatch=cur on a live target; ifGenerationMatch=0, =another object's generation, ifMetagenerationMatch=1, ifMetagenerationNotMatch=2 on an absent one} x OTHER requests on the target {none, overwrite by another upload, patch, delete, delete+re-create, patch+overwrite; create, create+patch, create+delete} x the point of the session at which they are executed {after the initiation before the first chunk, after the first data chunk was acknowledged (308), after the second, after every byte was acknowledged and before the bodiless finalising request} x store, each of the other requests followed by a dump (a half-sent session shows nowhere); the upload is performed iff its conditions hold against the object as it is when the upload is COMMITTED (both directions are counted: true when opened / false at commit and false when opened / true at commit), else 412/304 and nothing changed; 'hist': random histories whose conditions refer to generations learned earlier, 45 percent of the resumable uploads sent in >= 2 chunk requests with 1-2 other requests on the same object (upload by another protocol, patch, delete, re-creation, a quarter of them conditioned themselves) between two of the session's chunks, including conditioned and unconditioned deletes / patches of never-stored names that are '/'-prefixes of stored names (with and without trailing slash) and read-only steps after which the dump must be unchanged. Non-trivial = the request carried at least one condition (enum/src/folder) resp. the history saw both a passing and a failing conditioned request; distinct by case index. Sub 'chain' (complete, both tiers): objects head (uploaded through media / multipart / resumable), t1, t2, t3 with bodies read from the request; compose r1=[head,t1] and r2=[head,t1,t3] are accepted, then a compose with sources [head,t2,t3] (t2 shorter or longer than t1) is refused in each of 9 ways (ifGenerationMatch != current, = 0 on a live object, ifGenerationNotMatch = current, ifMetagenerationMatch != current, ifMetagenerationNotMatch = current, unparsable value, failing per-source ifGenerationMatch on the 2nd / 3rd / both later sources) x 5 destinations (r1, a never-stored name, the head, the tail t2, r2) x both stores: status per the truth table, and the dump after it (metadata and CONTENT of every object of the bucket) must equal the dump before it. The random histories also run 'sibling' scenarios: two objects whose names extend one another by a suffix a store might use for files of its own (X and X.tmp, X.meta, X~, X.part, X.bak, X.lock, X.new, X.old, X.swp, X.json, X.emumeta.tmp, .X.swp, #X#; file store: only names it can hold), both given non-default metadata (content type, user metadata, acl / owner ..., mostly a patch on top), then 3-6 requests - overwrite by any protocol, patch, copy onto it (also from the sibling: 'upload to name.tmp, rewrite to name'), compose onto it, delete / re-creation - addressed to one of the two, one per step; the dump after each compares both objects' content, metadata, MD5, generation and metageneration with the model. and 'compose_chain' scenarios: composes whose source lists begin with the same head object and continue with different tails, accepted ones (results kept under <head>.cat1..3) alternating with ones that must be refused (failing / unparsable destination condition, failing per-source ifGenerationMatch on a later source, missing later source; addressed to an earlier result, another name, the head or a tail); the dump after every request compares the content of every object.", c04Tuples, c04Tuples*len(c04States)*len(c04Ops)*2, c04Tuples)
 	run.Assumptions = []string{
 		"truth table taken from the statement: junk => 400; absent object passes only {} and {ifGenerationMatch=0}; 412 for match-type, 304 for not-match-type failures, either when both kinds fail; on an absent object 412 or 304 (and 404 for patch/delete)",
 		"zero values for the three parameters other than ifGenerationMatch are outside the stated space and never sent",
@@ -143,9 +143,46 @@ func runC04(run *common.Run) {
 			j.End(300 + i%64)
 		})
 	}
+	// 'chain' (complete): a refused compose in a history in which an EARLIER accepted compose used the same first source
+	// with another tail. Head protocol x kind of refusal x destination of the refused request x tail lengths x store.
+	var chain []c04ChainCase
+	for _, store := range drive.Stores {
+		for _, proto := range []string{"media", "multipart", "resumable"} {
+			for _, reject := range c04ChainRejects {
+				for _, where := range []string{"result", "absent", "head", "tail", "second"} {
+					for _, longer := range []bool{false, true} {
+						chain = append(chain, c04ChainCase{store, proto, reject, where, longer})
+					}
+				}
+			}
+		}
+	}
+	if run.WantSub("chain") {
+		common.Parallel(W, W, func(w int) {
+			srvs := srvPool{}
+			defer srvs.closeAll()
+			for idx := w; idx < len(chain); idx += W {
+				if !run.Want("chain", idx) {
+					continue
+				}
+				if tooMany(run) {
+					aborted.Store(true)
+					return
+				}
+				srv, err := srvs.get(chain[idx].store)
+				if err != nil {
+					run.Violation("chain", idx, "cannot start emulator: "+err.Error(), nil)
+					return
+				}
+				j.Begin(w, fmt.Sprintf("C04 chain case=%d seed=%d", idx, run.Seed))
+				c04Chain(run, srv, idx, chain[idx])
+				j.End(w)
+			}
+		})
+	}
 	if run.Replay == nil && !aborted.Load() {
 		run.Exhaustive = true
-		run.Set("exhaustive_subspace", fmt.Sprintf("enum: all %d (tuple x state x operation x store) cases; src: all %d compose per-source cases; folder: all %d (tuple x {delete, patch} x {t, t/} x store) cases on a never-stored name that is a '/'-prefix of stored names; the random histories are sampling", total, nsrc, nfolder))
+		run.Set("exhaustive_subspace", fmt.Sprintf("enum: all %d (tuple x state x operation x store) cases; src: all %d compose per-source cases; folder: all %d (tuple x {delete, patch} x {t, t/} x store) cases on a never-stored name that is a '/'-prefix of stored names; chain: all %d (store x head protocol x refusal x refused destination x tail lengths) refused composes after accepted composes with the same first source; the random histories are sampling", total, nsrc, nfolder, len(chain)))
 	}
 	nh := run.N(40, 2000)
 	if run.WantSub("hist") {
@@ -528,6 +565,126 @@ func c04Folder(run *common.Run, srv *drive.Server, idx int) {
 	}
 }
 
+type c04ChainCase struct {
+	store, proto, reject, where string
+	longer                      bool
+}
+
+// how the second compose of a 'chain' case is refused
+var c04ChainRejects = []string{"gm!=cur", "gm=0", "gnm=cur", "mm!=cur", "mnm=cur", "junk", "src2 generation", "src3 generation", "src2+src3 generation"}
+
+// c04Chain: objects head, t1, t2, t3 (head uploaded through the case's protocol, tails of other lengths); compose r1 =
+// [head, t1] and r2 = [head, t1, t3] are accepted; then a compose with sources [head, t2, t3] is REFUSED - for a failing
+// or unparsable destination condition or a failing per-source ifGenerationMatch on the second and / or third source -
+// addressed to r1 ("result"), to a name never stored ("absent"), to the head, to the tail t2 or to r2 ("second"). The
+// dumps before and after the refused request read metadata and content of every object of the bucket.
+func c04Chain(run *common.Run, srv *drive.Server, idx int, cc c04ChainCase) {
+	r := run.Rand("C04.chain", idx)
+	e := newExec(srv, true)
+	defer e.flush(run)
+	b := fmt.Sprintf("c%d", idx)
+	fail := func(what string) {
+		run.Violation("chain", idx, what, map[string]any{"store": srv.Kind, "head_protocol": cc.proto, "refusal": cc.reject, "refused_destination": cc.where, "second_tail_longer": cc.longer, "steps": e.steps})
+	}
+	if msg := e.createBucket(b); msg != "" {
+		fail(msg)
+		return
+	}
+	e.universe[b] = []string{"head", "t1", "t2", "t3", "r1", "r2", "r3", "decoy"}
+	l1, l2 := r.Range(20, 120), r.Range(1, 15)
+	if cc.longer {
+		l1, l2 = l2, l1
+	}
+	up := func(n, proto string, ln int) string {
+		u := &uploadSpec{Proto: proto, Bucket: b, Name: n, Body: r.Bytes(ln), CT: "application/octet-stream", CTMode: "both", Boundary: genBoundary(r),
+			KnownTotal: idx%2 == 0, ChunkMax: ln/2 + 1, UseLocation: idx%4 < 2}
+		if proto != "media" {
+			u.UserMeta = map[string]string{"of": n}
+		}
+		return e.upload(u, r)
+	}
+	protos := []string{"media", "multipart", "resumable"}
+	steps := []func() string{
+		func() string { return up("head", cc.proto, r.Range(1, 200)) },
+		func() string { return up("t1", protos[idx%3], l1) },
+		func() string { return up("t2", protos[(idx/3)%3], l2) },
+		func() string { return up("t3", protos[(idx/9)%3], r.Range(1, 40)) },
+		func() string {
+			return e.compose(&composeSpec{Bucket: b, Dst: "r1", Srcs: []composeSrc{{Name: "head"}, {Name: "t1"}}, CT: "text/plain", UserMeta: map[string]string{"k": "r1"}})
+		},
+		func() string {
+			return e.compose(&composeSpec{Bucket: b, Dst: "r2", Srcs: []composeSrc{{Name: "head"}, {Name: "t1"}, {Name: "t3"}}, CT: "image/png"})
+		},
+	}
+	for _, f := range steps {
+		if msg := f(); msg != "" {
+			fail("set-up: " + msg)
+			return
+		}
+		if msg := e.verify(); msg != "" {
+			fail("set-up: " + msg)
+			return
+		}
+	}
+	dst := map[string]string{"result": "r1", "absent": "r3", "head": "head", "tail": "t2", "second": "r2"}[cc.where]
+	cur := e.m.Get(b, dst)
+	spec := &composeSpec{Bucket: b, Dst: dst, Srcs: []composeSrc{{Name: "head"}, {Name: "t2"}, {Name: "t3"}}, CT: "text/plain", UserMeta: map[string]string{"k": "refused"}}
+	gen, metagen := e.m.Get(b, "head").Gen, int64(1)
+	if cur != nil {
+		gen, metagen = cur.Gen, cur.Metagen
+	}
+	srcGen := func(i int) *string { return model.I(e.m.Get(b, spec.Srcs[i].Name).Gen + int64(1-2*(idx%2))) }
+	switch cc.reject {
+	case "gm!=cur":
+		// (absent destination: the head's generation)
+		g := gen
+		if cur != nil {
+			g = e.m.Get(b, "t1").Gen
+		}
+		spec.Conds.GM = model.I(g)
+	case "gm=0":
+		if cur == nil {
+			spec.Conds.MM = model.I(1) // on an absent object gm=0 would pass
+		} else {
+			spec.Conds.GM = model.I(0)
+		}
+	case "gnm=cur":
+		spec.Conds.GNM = model.I(gen)
+	case "mm!=cur":
+		spec.Conds.MM = model.I(metagen + 1)
+	case "mnm=cur":
+		spec.Conds.MNM = model.I(metagen)
+	case "junk":
+		spec.Conds.GM = model.S(junkValues[idx%len(junkValues)])
+	case "src2 generation":
+		spec.Srcs[1].GenMatch = srcGen(1)
+	case "src3 generation":
+		spec.Srcs[2].GenMatch = srcGen(2)
+		spec.Srcs[0].GenMatch = model.I(e.m.Get(b, "head").Gen)
+	case "src2+src3 generation":
+		spec.Srcs[1].GenMatch, spec.Srcs[2].GenMatch = srcGen(1), srcGen(2)
+	}
+	before := e.stats["compose_failures_expected"]
+	if msg := e.compose(spec); msg != "" {
+		fail(msg)
+		return
+	}
+	if e.stats["compose_failures_expected"] == before {
+		fail("harness: the compose planned to be refused was accepted by the model")
+		return
+	}
+	if msg := e.verify(); msg != "" {
+		fail("after the refused compose: " + msg)
+		return
+	}
+	run.Case(common.Hash64("chain", fmt.Sprint(idx)), true)
+	run.Count("chain_refused_composes_after_accepted_composes_with_the_same_head", 1)
+	run.Count("chain_refused_"+cc.reject, 1)
+	if idx == 7 {
+		run.Sample(map[string]any{"sub": "chain", "store": srv.Kind, "head_protocol": cc.proto, "refusal": cc.reject, "refused_destination": cc.where, "steps": tailSteps(e.steps, 3)})
+	}
+}
+
 func c04Src(run *common.Run, srv *drive.Server, idx int) {
 	// idx -> store (idx%2), destination state, k and the base-3 code of the per-source conditions
 	code := idx / 2
@@ -595,7 +752,7 @@ func c04History(run *common.Run, idx int) {
 		run.Violation("hist", idx, what, map[string]any{"store": store, "steps": tailSteps(e.steps, 40), "steps_total": len(e.steps)})
 	}
 	o := &progOpts{Buckets: []string{"vb1"}, Names: []string{"t", "u", "dir/v", "w.txt"}, FileRules: store == "file", CondPct: 75, JunkPct: 6, MD5Pct: 10, NoGzip: true, ExtraPct: 50, GzipObjPct: 8, MidPct: 45,
-		W: map[string]int{"upload": 20, "overwrite": 25, "delete": 14, "delete_absent": 5, "patch": 14, "patch_full": 12, "patch_bad": 8, "patch_absent": 4, "compose": 10, "noop": 1, "reads": 2, "decoy": 6}}
+		W: map[string]int{"upload": 20, "overwrite": 25, "delete": 14, "delete_absent": 5, "patch": 14, "patch_full": 12, "patch_bad": 8, "patch_absent": 4, "compose": 10, "noop": 1, "reads": 2, "decoy": 6, "sibling": 3, "compose_chain": 6}}
 	if msg := e.createBucket("vb1"); msg != "" {
 		fail(msg)
 		return
